@@ -71,6 +71,9 @@ pub fn subcommand(name: &str, args: &[String]) -> Option<i32> {
         "c16-child" => Some(c16::child(args)),
         #[cfg(all(not(feature = "stateless"), any(feature = "pm", feature = "full")))]
         "c16-hold" => Some(c16::holder(args)),
+        #[cfg(all(not(feature = "stateless"), any(feature = "pm", feature = "full")))]
+        "c16-fsize" => Some(c16::fsize_child(args)),
+        "miri-pure" => Some(miri_pure(args)),
         "selftest-ref" => {
             let bad = crate::refhash::self_test();
             println!("{:?}", bad);
@@ -78,4 +81,74 @@ pub fn subcommand(name: &str, args: &[String]) -> Option<i32> {
         }
         _ => None,
     }
+}
+
+
+/// Workload small enough for the Miri interpreter: the only `unsafe` code of the repository that can be reached
+/// without Poseidon parameter generation, sled or the zkey -- the FFI buffer handling around `ffi::hash` -- plus
+/// the pure byte codecs and graph operators (UB / overflow detection in the hand-written limb code).
+/// Prints "MIRI-PURE-OK <n>" at the end; any UB makes Miri abort with a report.
+pub fn miri_pure(args: &[String]) -> i32 {
+    use crate::common::*;
+    let n: usize = args.get(2).and_then(|s| s.parse().ok()).unwrap_or(40);
+    let mut rng = rng_for(1, "miri");
+    let mut done = 0usize;
+    // FFI hash: input Buffer -> slice::from_raw_parts, output Vec leaked into a Buffer, read back by the caller
+    for k in 0..n {
+        let len = [0usize, 1, 31, 32, 33, 135, 136, 137, 300][k % 9];
+        let data = rand_bytes(&mut rng, len);
+        match crate::ffiu::call_io(rln::ffi::hash, &data) {
+            Some(out) => {
+                if out.len() != 32 || out != fr_le32(&crate::refhash::hash_to_field_ref(&data)).to_vec() {
+                    println!("MIRI-PURE-MISMATCH ffi::hash len={len}");
+                    return 1;
+                }
+            }
+            None => {
+                println!("MIRI-PURE-MISMATCH ffi::hash returned false");
+                return 1;
+            }
+        }
+        done += 1;
+    }
+    // codecs
+    for k in 0..n {
+        let v: Vec<ark_bn254::Fr> = (0..(k % 4)).map(|_| rand_fr(&mut rng)).collect();
+        let enc = rln::utils::vec_fr_to_bytes_le(&v).unwrap();
+        let (back, read) = rln::utils::bytes_le_to_vec_fr(&enc).unwrap();
+        if back != v || read != enc.len() || enc != crate::codec::enc_vec_fr(&v) {
+            println!("MIRI-PURE-MISMATCH vec_fr");
+            return 1;
+        }
+        let b = rand_bytes(&mut rng, k % 9);
+        let enc = rln::utils::vec_u8_to_bytes_le(&b).unwrap();
+        if rln::utils::bytes_le_to_vec_u8(&enc).unwrap().0 != b {
+            println!("MIRI-PURE-MISMATCH vec_u8");
+            return 1;
+        }
+        done += 2;
+    }
+    // graph operators on boundary operands
+    {
+        use crate::circomref::{Ctx, ALL_OPS};
+        let ctx = Ctx::new();
+        let grid = small_grid();
+        for k in 0..n {
+            let a = &grid[(k * 7) % grid.len()].1;
+            let b = &grid[(k * 13 + 5) % grid.len()].1;
+            for op in ALL_OPS {
+                if !c19::fr_accepts(op) {
+                    continue;
+                }
+                let got = c19::to_rln(op).eval_fr(big_to_fr(a), big_to_fr(b));
+                if fr_to_big(&got) != ctx.eval(op, a, b) {
+                    println!("MIRI-PURE-MISMATCH {:?}", op);
+                    return 1;
+                }
+                done += 1;
+            }
+        }
+    }
+    println!("MIRI-PURE-OK {done}");
+    0
 }
